@@ -312,3 +312,40 @@ Proof.
     pose proof (h_nonneg (n0 + 3 * c + 11)).
     unfold msg_size, h in *. lia.
 Qed.
+
+(* ---------- fifth wave: the client's limit is the limit of THE REQUEST, whatever the process served before ---------- *)
+Lemma client_process_map codec : forall reqs seen,
+  client_process codec seen reqs = map (client_request_accepts codec) reqs.
+Proof. induction reqs as [|r rest IH]; intros seen; cbn; [reflexivity|]. rewrite IH. reflexivity. Qed.
+
+Lemma client_limit_is_per_request_proof : forall codec before r after,
+  nth_error (client_seq_outcomes codec (before ++ r :: after)) (length before)
+  = nth_error (client_seq_outcomes codec [r]) 0.
+Proof.
+  intros codec before r after. unfold client_seq_outcomes. rewrite !client_process_map.
+  rewrite map_app. rewrite nth_error_app2; rewrite map_length; [|lia].
+  rewrite Nat.sub_diag. reflexivity.
+Qed.
+
+Lemma client_history_irrelevant_proof : forall codec seen1 seen2 reqs,
+  client_process codec seen1 reqs = client_process codec seen2 reqs.
+Proof. intros. rewrite !client_process_map. reflexivity. Qed.
+
+Lemma client_request_accepts_sharp codec limit size :
+  0 < limit -> (client_request_accepts codec (limit, size) = true <-> size <= limit).
+Proof.
+  intros L. unfold client_request_accepts, client_readers. cbn [fst snd].
+  apply Z.ltb_lt in L. rewrite L. cbn. rewrite !Bool.andb_true_r. unfold accepts. apply Z.leb_le.
+Qed.
+
+Lemma client_seq_sharp_at_own_limit_proof : forall codec reqs k limit size,
+  nth_error reqs k = Some (limit, size) ->
+  (0 < limit -> exists b, nth_error (client_seq_outcomes codec reqs) k = Some b /\ (b = true <-> size <= limit)) /\
+  (limit <= 0 -> nth_error (client_seq_outcomes codec reqs) k = Some true).
+Proof.
+  intros codec reqs k limit size H. unfold client_seq_outcomes. rewrite client_process_map.
+  rewrite (map_nth_error _ _ _ H). split.
+  - intros L. eexists. split; [reflexivity|]. apply client_request_accepts_sharp, L.
+  - intros L. f_equal. unfold client_request_accepts, client_readers. cbn [fst snd].
+    destruct (Z.ltb_spec 0 limit); [lia|reflexivity].
+Qed.
